@@ -45,4 +45,11 @@ def textOk (F : MarkerFacts) (dSend dSync rSync : Bool) : Bool :=
 def kindFreeOk (F : MarkerFacts) (constrainS : Bool) (sync : Bool) (dSend dSync : Bool) : Bool :=
   !constrainS && handleOk F sync dSend dSync
 
+/-- the traversal iterators (`children()`, `descendants()`, `preorder()`, `ancestors()`, `siblings()` … of plain and resolved
+    nodes) are `impl Iterator` values holding references to, and clones of, handles of the tree: for thread-safe data they
+    cross a thread boundary like the handles do, for data that is neither `Send` nor `Sync` they do not (their auto traits
+    leak through the opaque type, so whatever the implementation captures decides) -/
+def iterOk (F : MarkerFacts) (dSend dSync : Bool) : Bool :=
+  handleOk F true dSend dSync && handleOk F false dSend dSync
+
 end Cst
